@@ -461,7 +461,12 @@ def reduction_case(ctx, rng):
             with warnings.catch_warnings():
                 warnings.simplefilter("ignore")
                 full = Ms.to_pubo(deg=10 ** 6) if cname in ("PUSO", "PCSO") else Ms
-            if any(hasattr(v, "free_symbols") and v.free_symbols and v.subs({lam: c}) == 0 for v in list(full.values()) + list(Ms.values())):
+                fullc = Mc.to_pubo(deg=10 ** 6) if cname in ("PUSO", "PCSO") else Mc
+            if any(hasattr(v, "free_symbols") and v.free_symbols and v.subs({lam: c}) == 0 for v in list(full.values()) + list(Ms.values())) \
+                    or list(full) != list(fullc):
+                # (also when a PARTIAL sum vanishes at this value while the image is accumulated: the numeric image then holds the
+                #  same terms in another order, and the greedy reduction, which walks the terms in order, makes other -- equally
+                #  valid -- choices)
                 ctx.cat("reduction:coincidental-cancellation-skipped")
                 return
         plam = rng.choice([None, None, 3])
